@@ -409,6 +409,7 @@ fn main() {
     let out = std::io::stdout();
     let mut out = std::io::BufWriter::new(out.lock());
     writeln!(out, "CONFIG wordbits={} std={} debug_assertions={}", dashu_int::Word::BITS, cfg!(feature = "std"), cfg!(debug_assertions)).unwrap();
+    out.flush().unwrap();
     for (i, line) in std::io::BufReader::new(f).lines().enumerate() {
         let line = line.unwrap();
         let args: Vec<&str> = line.split_whitespace().collect();
@@ -417,5 +418,7 @@ fn main() {
         }
         let r = catch_unwind(AssertUnwindSafe(|| eval(&args))).unwrap_or_else(|_| "PANIC".to_string());
         writeln!(out, "{i} {r}").unwrap();
+        // flushed per case: the parent watchdog reads how far the evaluator got when it kills it
+        out.flush().unwrap();
     }
 }
